@@ -338,7 +338,7 @@ pub fn run(ctx: &Ctx, rep: &mut Report) {
             } else {
                 let (tname, size, is_float, f) = TYPES[k];
                 let mask: u128 = (1u128 << (8 * size)) - 1;
-                let mut vals = if idx < 17 * 4 { boundary(size) } else { Vec::new() };
+                let mut vals = if idx < 17 * 4 && !ctx.lite { boundary(size) } else { Vec::new() };
                 if is_float && idx < 17 * 4 {
                     vals.extend(float_specials(size));
                 }
@@ -362,6 +362,11 @@ pub fn run(ctx: &Ctx, rep: &mut Report) {
                 }
                 if idx < 17 * 4 {
                     partners.extend(bnd.iter().copied());
+                }
+                if ctx.lite {
+                    // interpreter mode: a handful of values per type (the interpreter checks the unsafe parts, natives do the volume)
+                    vals.truncate(3);
+                    partners.truncate(3);
                 }
                 f(&vals, &partners, &mut fails, &mut evals);
                 name = tname;
